@@ -121,3 +121,9 @@ add('M26', [('SRC/zgsrfs.c', "	*(unsigned char *)transc = 'C';", "	*(unsigned ch
 add('M26b', x4('SRC/?gsrfs.c', "		?gstrs (transt, L, U, perm_c, perm_r, &Bjcol, stat, info);", "		?gstrs (trans, L, U, perm_c, perm_r, &Bjcol, stat, info);"), ['C13'],
     note='estimator kase 1 solves with the same sense')
 add('M26c', x4('SRC/?gssvx.c', "            for (j = 0; j < nrhs; ++j) ferr[j] = berr[j] = 1.0;", "            for (j = 0; j < nrhs; ++j) ferr[j] = berr[j] = 0.0;"), ['C13'], note='NOREFINE reports zero errors')
+add('M27', x4('SRC/?sp_blas2.c', "    solve_ops = 0;\n\n    if ( !(work = ", "    solve_ops = 0;\n    Uval[0] = Uval[0];\n    if ( !(work = "), ['C14'], note='sp_?trsv writes into U')
+add('M28', [('SRC/dsp_blas2.c', "	    for (k = Lstore->nsuper; k >= 0; k--) {\n	    	fsupc = L_FST_SUPC(k);\n	    	nsupr = L_SUB_START(fsupc+1) - L_SUB_START(fsupc);\n	    	nsupc = L_FST_SUPC(k+1) - fsupc;\n	    	luptr = L_NZ_START(fsupc);\n		\n    	        solve_ops += nsupc * (nsupc + 1);",
+             "	    for (k = 0; k <= Lstore->nsuper; k++) {\n	    	fsupc = L_FST_SUPC(k);\n	    	nsupr = L_SUB_START(fsupc+1) - L_SUB_START(fsupc);\n	    	nsupc = L_FST_SUPC(k+1) - fsupc;\n	    	luptr = L_NZ_START(fsupc);\n		\n    	        solve_ops += nsupc * (nsupc + 1);")],
+    ['C14'], note='back substitution sweeps supernodes forward (d)')
+add('M28b', [('SRC/zsp_blas2.c', "    else ky =  - (leny - 1) * incy;", "    else ky =  - (lenx - 1) * incy;"), ('SRC/csp_blas2.c', "    else ky =  - (leny - 1) * incy;", "    else ky =  - (lenx - 1) * incy;")], ['C14'],
+    note='start of y computed from the length of x (complex)')
